@@ -36,7 +36,10 @@ class C10(Check):
             "shape x block size x label distribution) stored through the "
             "real writer on a storage kind (plain file, gzip file, sharded "
             "raw/gzip), then 12-40 seeded corruptions of the stored payload, "
-            "each read back by a fresh PrecomputedIO; evaluations = corrupted "
+            "(torn, stale tail, bit flips, lost sector, misdirected block or "
+            "whole payload of another shape, random replacement, header-field "
+            "edits, well-formed images of other containers), each read back "
+            "by a fresh PrecomputedIO; evaluations = corrupted "
             "reads; distinct = distinct (encoding, data type, storage kind, "
             "corruption kind, outcome class); non-trivial = the corrupted "
             "payload differs from the valid one and reached the decoder")
